@@ -26,6 +26,14 @@ fn take(eg: &EGraph) -> Dump {
 }
 
 /// Evaluate a ground term (s-expression) over the dump: (class key, row was flagged subsumed).
+pub fn eval_pub(d: &Dump, t: &S, globals: &BTreeMap<String, S>) -> Option<(V, bool)> {
+    eval(d, t, globals)
+}
+
+pub fn uses_subsumed_pub(d: &Dump, t: &S, globals: &BTreeMap<String, S>) -> Option<String> {
+    uses_subsumed(d, t, globals)
+}
+
 fn eval(d: &Dump, t: &S, globals: &BTreeMap<String, S>) -> Option<(V, bool)> {
     match t {
         S::A(a) => {
